@@ -48,7 +48,7 @@ ISINSTANCE_KINDS = {
     "NoneType": "N",
 }
 # classes that cover a kind *completely* (needed for the false edge of isinstance)
-FULL_COVER = {"int": "IB", "bool": "B", "float": "F", "str": "S", "dict": "D", "range": "R", "Undefined": "U", "Decimal": "C"}
+FULL_COVER = {"int": "IB", "bool": "B", "float": "F", "str": "S", "dict": "D", "range": "R", "Undefined": "U", "Decimal": "C", "Number": "BIFC", "numbers.Number": "BIFC", "Real": "BIF", "Integral": "BI"}
 # abstract / protocol classes: membership says little about our kinds
 ABSTRACT = {
     "Iterable": "SLDRYOU",
@@ -273,6 +273,9 @@ class KindFlow(MustFlow):
                 return _k(CALL_KINDS[name])
             return ALL
         if isinstance(fn, ast.Name):
+            if name == "next" and c.args and isinstance(c.args[0], ast.Name) and ("it", c.args[0].id) in st:
+                d = self.kinds_of(c.args[1], st) if len(c.args) > 1 else EMPTY
+                return DATA | d
             if name == "round":
                 if len(c.args) == 1:
                     return _k("I")
@@ -445,7 +448,14 @@ class KindFlow(MustFlow):
             ne = isinstance(value, (ast.List, ast.Tuple, ast.Dict)) and bool(getattr(value, "elts", None) or getattr(value, "keys", None)) or (isinstance(value, ast.Constant) and bool(value.value))
             if isinstance(value, ast.Name) and self.nonempty(pre, value.id):
                 ne = True
-            return self._bind(st, target.id, self.kinds_of(value, pre), bool(ne))
+            out = self._bind(st, target.id, self.kinds_of(value, pre), bool(ne))
+            # an iterator over a data container: what `next()` hands out is data
+            v0 = unwrap_await(value)
+            if isinstance(v0, ast.Call) and isinstance(v0.func, ast.Name) and v0.func.id == "iter" and len(v0.args) == 1:
+                kx = self.kinds_of(v0.args[0], pre)
+                if kx != ALL and "O" not in kx:
+                    out = frozenset(out | {("it", target.id)})
+            return out
         if isinstance(target, (ast.Tuple, ast.List)):
             if isinstance(value, (ast.Tuple, ast.List)) and len(value.elts) == len(target.elts) and not any(isinstance(x, ast.Starred) for x in target.elts):
                 for t, v in zip(target.elts, value.elts):
@@ -641,4 +651,127 @@ def path_states(fn: ast.AST, param_kinds: dict[str, frozenset], want: Callable[[
         flow.decisions = {id(n): bool(mask >> i & 1) for i, n in enumerate(ifs)}
         flow.analyse(fn)
         out.extend(hits)
+    return out
+
+
+
+def exits_for_kinds(fn: ast.AST, kinds: dict[str, frozenset], module_consts=None, resolve_func=None, _depth: int = 0) -> list[tuple[ast.stmt, dict]]:
+    """The ``return`` / ``raise`` statements of a small loop-free function that can be reached
+    when the named variables hold values of the given kinds — tests are evaluated three-valued
+    (definitely true: every given kind is fully covered by the test; definitely false: none can
+    satisfy it; otherwise both branches are followed), so ``A and B`` being false is followed
+    exactly, not through what both disjuncts imply."""
+    flow = KindFlow(param_kinds={})
+    flow.module_consts = module_consts or {}
+    out: list[tuple[ast.stmt, dict]] = []
+
+    def ev(t: ast.AST, env: dict):
+        if isinstance(t, ast.UnaryOp) and isinstance(t.op, ast.Not):
+            r = ev(t.operand, env)
+            return None if r is None else not r
+        if isinstance(t, ast.BoolOp):
+            rs = [ev(v, env) for v in t.values]
+            if isinstance(t.op, ast.And):
+                return False if False in rs else (True if all(r is True for r in rs) else None)
+            return True if True in rs else (False if all(r is False for r in rs) else None)
+        a = flow._allowed(t)
+        if a is None:
+            return None
+        var, yes, no = a
+        ks = env.get(var)
+        if ks is None:
+            return None
+        if ks and ks <= no:
+            return True
+        if not (ks & yes):
+            return False
+        return None
+
+    def narrow(t: ast.AST, truth: bool, env: dict) -> dict:
+        env = dict(env)
+        for fact in flow._gen_cond(t, truth):
+            if fact[0] == "nk" and fact[1] in env:
+                env[fact[1]] = env[fact[1]] - {fact[2]}
+        return env
+
+    def block(body, env) -> bool:
+        """True when control can fall off the end"""
+        envs = [env]
+        for st in body:
+            nxt = []
+            for e in envs:
+                nxt += stmt(st, e)
+            envs = nxt
+            if not envs:
+                return []
+        return envs
+
+    def stmt(st, env) -> list:
+        if any(not v for v in env.values()):
+            return []  # infeasible
+        if isinstance(st, ast.Raise):
+            out.append((st, env))
+            return []
+        if isinstance(st, ast.Return):
+            # a conditional expression is a branch like any other
+            todo = [(st.value, env)]
+            while todo:
+                v, e = todo.pop()
+                if any(not k for k in e.values()):
+                    continue
+                if isinstance(v, ast.IfExp):
+                    r = ev(v.test, e)
+                    if r is not False:
+                        todo.append((v.body, narrow(v.test, True, e)))
+                    if r is not True:
+                        todo.append((v.orelse, narrow(v.test, False, e)))
+                    continue
+                out.append((ast.copy_location(ast.Return(value=v), st), e))
+            return []
+        if isinstance(st, ast.If):
+            r = ev(st.test, env)
+            res_ = []
+            if r is not False:
+                res_ += block(st.body, narrow(st.test, True, env))
+            if r is not True:
+                e2 = narrow(st.test, False, env)
+                res_ += block(st.orelse, e2) if st.orelse else [e2]
+            return res_
+        if isinstance(st, ast.Assign) and len(st.targets) == 1 and isinstance(st.targets[0], ast.Name) and st.targets[0].id in env and isinstance(st.value, ast.Name) and st.value.id in env:
+            env = dict(env)
+            env[st.targets[0].id] = env[st.value.id]
+            return [env]
+        if isinstance(st, ast.Assign) and len(st.targets) == 1 and isinstance(st.targets[0], ast.Name) and st.targets[0].id in env and isinstance(st.value, ast.Call) and isinstance(st.value.func, ast.Name) and len(st.value.args) == 1 and not st.value.keywords and isinstance(st.value.args[0], ast.Name) and st.value.args[0].id in env and resolve_func is not None and _depth < 2:
+            # x = helper(y): the kinds the one-argument module helper can return for y's kinds
+            # (an unwrap helper returns its argument unchanged for every kind without the protocol)
+            h = resolve_func(st.value.func.id)
+            if h is not None and len(h.args.args) == 1:
+                hp = h.args.args[0].arg
+                try:
+                    hex_ = exits_for_kinds(h, {hp: env[st.value.args[0].id]}, module_consts, resolve_func, _depth + 1)
+                except ValueError:
+                    hex_ = None
+                if hex_ is not None:
+                    ks = frozenset()
+                    for hs, henv in hex_:
+                        if isinstance(hs, ast.Return) and isinstance(hs.value, ast.Name) and hs.value.id == hp:
+                            ks |= henv[hp]
+                        elif isinstance(hs, ast.Return):
+                            ks = ALL
+                    env = dict(env)
+                    env[st.targets[0].id] = ks
+                    return [env]
+        if isinstance(st, (ast.Assign, ast.AnnAssign, ast.AugAssign)):
+            env = dict(env)
+            tg = st.targets if isinstance(st, ast.Assign) else [st.target]
+            for t in tg:
+                for x in ast.walk(t):
+                    if isinstance(x, ast.Name) and x.id in env:
+                        env[x.id] = ALL
+            return [env]
+        if isinstance(st, (ast.For, ast.While, ast.Try, ast.With)):
+            raise ValueError("exits_for_kinds: only loop-free functions")
+        return [env]
+
+    block(fn.body, dict(kinds))
     return out
